@@ -1,6 +1,7 @@
 package client
 
 import (
+	"bytes"
 	"context"
 	"errors"
 	"fmt"
@@ -50,7 +51,7 @@ type Conn struct {
 	session                         *Session
 	observationHandler              *observation.Handler[*Conn]
 	processReceivedMessage          func(req *pool.Message, cc *Conn, handler HandlerFunc)
-	tokenHandlerContainer           *coapSync.Map[uint64, HandlerFunc]
+	tokenHandlerContainer           *coapSync.Map[string, HandlerFunc] // keyed by the token bytes
 	blockWise                       *blockwise.BlockWise[*Conn]
 	blockwiseSZX                    blockwise.SZX
 	peerMaxMessageSize              atomic.Uint32
@@ -121,7 +122,7 @@ func NewConnWithOpts(connection *coapNet.Conn, cfg *Config, opts ...Option) *Con
 		o(&cfgOpts)
 	}
 	cc := Conn{
-		tokenHandlerContainer:           coapSync.NewMap[uint64, HandlerFunc](),
+		tokenHandlerContainer:           coapSync.NewMap[string, HandlerFunc](),
 		blockwiseSZX:                    cfg.BlockwiseSZX,
 		disablePeerTCPSignalMessageCSMs: cfg.DisablePeerTCPSignalMessageCSMs,
 	}
@@ -179,11 +180,11 @@ func (cc *Conn) doInternal(req *pool.Message) (*pool.Message, error) {
 	}
 	// a token identifies one thing at a time: with the token of a live observation the request and the
 	// observation would share everything that arrives
-	if _, ok := cc.observationHandler.GetObservation(token.Hash()); ok {
+	if o, ok := cc.observationHandler.GetObservation(token.Hash()); ok && bytes.Equal(o.Request().Token, token) {
 		return nil, fmt.Errorf("cannot add token(%v) handler: %w", token, coapErrors.ErrKeyAlreadyExists)
 	}
 	respChan := make(chan *pool.Message, 1)
-	if _, loaded := cc.tokenHandlerContainer.LoadOrStore(token.Hash(), func(_ *responsewriter.ResponseWriter[*Conn], r *pool.Message) {
+	if _, loaded := cc.tokenHandlerContainer.LoadOrStore(string(token), func(_ *responsewriter.ResponseWriter[*Conn], r *pool.Message) {
 		r.Hijack()
 		select {
 		case respChan <- r:
@@ -193,7 +194,7 @@ func (cc *Conn) doInternal(req *pool.Message) (*pool.Message, error) {
 		return nil, fmt.Errorf("cannot add token handler: %w", coapErrors.ErrKeyAlreadyExists)
 	}
 	defer func() {
-		_, _ = cc.tokenHandlerContainer.LoadAndDelete(token.Hash())
+		_, _ = cc.tokenHandlerContainer.LoadAndDelete(string(token))
 	}()
 	verifhook.Yield("tcp.doInternal.afterRegister", token.Hash())
 	if err := cc.session.WriteMessage(req); err != nil {
@@ -260,7 +261,7 @@ func (cc *Conn) AsyncPing(receivedPong func()) (func(), error) {
 	req.SetCode(codes.Ping)
 	defer cc.ReleaseMessage(req)
 
-	if _, loaded := cc.tokenHandlerContainer.LoadOrStore(token.Hash(), func(_ *responsewriter.ResponseWriter[*Conn], r *pool.Message) {
+	if _, loaded := cc.tokenHandlerContainer.LoadOrStore(string(token), func(_ *responsewriter.ResponseWriter[*Conn], r *pool.Message) {
 		if r.Code() == codes.Pong {
 			// not on this goroutine: it reads the connection, and the callback may issue a request whose
 			// answer has to be read while the callback waits
@@ -270,7 +271,7 @@ func (cc *Conn) AsyncPing(receivedPong func()) (func(), error) {
 		return nil, fmt.Errorf("cannot add token handler: %w", coapErrors.ErrKeyAlreadyExists)
 	}
 	removeTokenHandler := func() {
-		_, _ = cc.tokenHandlerContainer.LoadAndDelete(token.Hash())
+		_, _ = cc.tokenHandlerContainer.LoadAndDelete(string(token))
 	}
 	err = cc.session.WriteMessage(req)
 	if err != nil {
@@ -350,7 +351,7 @@ func (cc *Conn) doObserve(req *pool.Message, observeFunc func(req *pool.Message)
 	cc.receivedMessageReader.TryToReplaceLoop()
 	// a token identifies one thing at a time: a request that is waiting for its response under this token would
 	// share everything that arrives with the observation
-	if _, ok := cc.tokenHandlerContainer.Load(req.Token().Hash()); ok {
+	if _, ok := cc.tokenHandlerContainer.Load(string(req.Token())); ok {
 		return nil, fmt.Errorf("cannot add token(%v) handler: %w", req.Token(), coapErrors.ErrKeyAlreadyExists)
 	}
 	return cc.observationHandler.NewObservation(req, observeFunc)
@@ -385,7 +386,7 @@ func isRequest(r *pool.Message) bool {
 
 func (cc *Conn) blockwiseHandle(w *responsewriter.ResponseWriter[*Conn], r *pool.Message) {
 	if !isRequest(r) {
-		if h, ok := cc.tokenHandlerContainer.Load(r.Token().Hash()); ok {
+		if h, ok := cc.tokenHandlerContainer.Load(string(r.Token())); ok {
 			h(w, r)
 			return
 		}
@@ -399,7 +400,7 @@ func (cc *Conn) handle(w *responsewriter.ResponseWriter[*Conn], r *pool.Message)
 		return
 	}
 	if !isRequest(r) {
-		if h, ok := cc.tokenHandlerContainer.LoadAndDelete(r.Token().Hash()); ok {
+		if h, ok := cc.tokenHandlerContainer.LoadAndDelete(string(r.Token())); ok {
 			h(w, r)
 			return
 		}
@@ -450,7 +451,7 @@ func (cc *Conn) handleSignals(r *pool.Message) bool {
 		cc.handleTCPSignalReceived(codes.Ping)
 		return true
 	case codes.Pong:
-		if h, ok := cc.tokenHandlerContainer.LoadAndDelete(r.Token().Hash()); ok {
+		if h, ok := cc.tokenHandlerContainer.LoadAndDelete(string(r.Token())); ok {
 			cc.processReceivedMessage(r, cc, h)
 		}
 
